@@ -97,7 +97,20 @@ func vxLen(max int) int {
 func vxU32() uint32    { return uint32(vxNum("u32")) }
 func vxU16() uint16    { return uint16(vxNum("u16")) }
 func vxU8() uint8      { return uint8(vxNum("u8")) }
-func vxBool() bool     { return vxNum("bool") != 0 }
+// vxForced, when non-nil, supplies vxBool's results (model validation; exhausted -> false).
+var vxForced []bool
+
+func vxBool() bool {
+	if vxForced != nil {
+		if len(vxForced) == 0 {
+			return false
+		}
+		b := vxForced[0]
+		vxForced = vxForced[1:]
+		return b
+	}
+	return vxNum("bool") != 0
+}
 func vxChoose(int) int { return int(vxNum("choose")) }
 
 // vxBytes returns a slice of length n and capacity c with arbitrary content
